@@ -257,6 +257,19 @@ pub fn check(s: &'static dyn Proto, c: &Case, st: &mut Stats, _k: &KnownFindings
         ensure!(mk(&uploads[0]) != mk(&uploads[1]), "the same registration at two unrelated servers yields the same masking key");
         st.eval(2);
     }
+    // a registration finished twice from the same kept state on one continuing generator (the
+    // upload got lost, the client retries) is a new registration: different nonce, different export key
+    {
+        let mut shared = t(950).rng();
+        let cred = b"user-0".to_vec();
+        let (req, cst) = s.client_reg_start(&mut shared, &pws[0]).map_err(|x| e("client reg start", x))?;
+        let resp = s.server_reg_start(&setups[0], &req, &cred).map_err(|x| e("server reg start", x))?;
+        let f1 = s.client_reg_finish(s.clone_obj(&cst), &mut shared, &pws[0], &resp, ids, None).map_err(|x| e("client reg finish", x))?;
+        let f2 = s.client_reg_finish(s.clone_obj(&cst), &mut shared, &pws[0], &resp, ids, None).map_err(|x| e("client reg finish (retry)", x))?;
+        ensure!(f1.export_key != f2.export_key, "a retried registration finish on the same continuing RNG returns the same export key");
+        ensure!(s.ser(Codec::Native, &f1.upload) != s.ser(Codec::Native, &f2.upload), "a retried registration finish produces a byte-identical upload");
+        st.eval(2);
+    }
     // separation: export keys of distinct registrations pairwise different, and different from every session key
     for i in 0..export_keys.len() {
         for j in 0..i {
